@@ -67,7 +67,7 @@ MIN_EVALS = {"setitem_contract": 20000, "section_assign": 1000, "h5_attribute": 
              "rejected_not_stored": 2000, "rejected_with_warning": 500,
              "case_insensitive": 5000, "idempotent": 3000, "text_roundtrip": 2000,
              "text_setting": 1000, "file_roundtrip": 2000, "export_roundtrip": 2000,
-             "compress_roundtrip": 1000, "writer_rejects": 500, "seq_state": 1000, "registry_history": 800}
+             "compress_roundtrip": 1000, "writer_rejects": 500, "seq_state": 1000, "registry_history": 800, "rewrite_roundtrip": 500}
 WATCHDOG_S = {"quick": 400, "thorough": 3000}
 NSHARD = 16
 N_EVENTS = 7
@@ -242,6 +242,8 @@ def plan(tier, seed):
         shards.append({"kind": "seq", "cases": c})
     for c in _stride(160 if tier == "quick" else 3200):
         shards.append({"kind": "registry", "cases": c})
+    for c in _stride(160 if tier == "quick" else 3200):
+        shards.append({"kind": "rewrite", "cases": c})
     if tier == "thorough":
         for c in _stride(len(FULL_FEATS) ** 2):
             shards.append({"kind": "mempairs", "cases": c})
@@ -1510,6 +1512,105 @@ def run_registry(ctx, idx):
         ctx.sample({"kind": "registry", "history": hist[:10]})
 
 
+# ------------------------------------------------------------------- rewrite histories
+def run_rewrite(ctx, idx):
+    """A key that is already stored in the file (by dclab in an earlier session, or by other
+    software with another HDF5 type) is written again through RTDCWriter.store_metadata: what
+    is read back is the normalised *new* value."""
+    import h5py
+    from dclab import RTDCWriter
+    from dclab.rtdc_dataset import fmt_hdf5
+    from vmon import boot
+    rng = ctx.rng(idx, salt=91)
+    # (section, key, values of different types that are all acceptable for the key)
+    pool = [
+        ("setup", "channel width", [20, 20.5, "30", np.float32(25.5), np.int64(40)]),
+        ("imaging", "pixel size", [1, 0.34, "0.26", np.float64(0.5)]),
+        ("setup", "flow rate", [1, 0.04, "0.16"]),
+        ("imaging", "frame rate", [2000, 2000.5, "3000"]),
+        ("experiment", "sample", ["abc", "a much longer sample name äöü", "x"]),
+        ("setup", "medium", ["water", "CellCarrierB", "other medium with a long name"]),
+        ("experiment", "run index", [1, 70000, "3", np.int64(2 ** 40)]),
+        ("user", "threshold", [1, 1.5, True, "text", np.float32(0.25)]),
+        ("user", "enabled", [True, 0.25, 3, "yes"]),
+        ("user", "weights", [[1, 2, 3], [0.5, 1.5, 2.5], np.arange(3), np.linspace(0, 1, 3),
+                             [True, False, True]]),
+        ("online_filter", "area_um min", [50, 50.5, np.int32(7), np.float64(2.25)]),
+        ("online_filter", "deform max", [1, 0.5]),
+        ("online_filter", "area_um,deform soft limit", [True, False, "False", 1]),
+    ]
+    tmp = boot.scratch()
+    path = tmp / f"c11_rw_{os.getpid()}_{idx}.rtdc"
+    if path.exists():
+        path.unlink()
+    chosen = [pool[int(i)] for i in rng.choice(len(pool), size=int(rng.integers(2, 6)),
+                                               replace=False)]
+    hist = []
+    try:
+        with RTDCWriter(path, mode="reset") as hw:
+            hw.store_metadata({"experiment": {"sample": "initial", "run index": 1},
+                               "setup": {"channel width": 20.0}})
+            hw.store_feature("deform", np.linspace(0.01, 0.02, N_EVENTS))
+        current = {}
+        for rnd in range(int(rng.integers(2, 5))):
+            foreign = rnd == 0 and rng.random() < 0.5
+            meta = {}
+            for sec, key, vals in chosen:
+                v = vals[int(rng.integers(0, len(vals)))]
+                meta.setdefault(sec, {})[key] = v
+            if foreign:
+                # other software: plain h5py attributes (numpy integer where dclab stores a
+                # float, fixed-width byte strings, ...)
+                with h5py.File(path, "a") as h5:
+                    for sec, kv in meta.items():
+                        for key, v in kv.items():
+                            if isinstance(v, str) and sec != "online_filter":
+                                h5.attrs[f"{sec}:{key}"] = np.bytes_(v.encode("utf-8"))
+                            else:
+                                h5.attrs[f"{sec}:{key}"] = v
+                hist.append(["raw h5py attributes", show(meta)])
+                ctx.count("rewrite_rounds[raw h5py]")
+                continue
+            _State.route = "rewrite"
+            mode = str(rng.choice(["append", "replace"]))
+            c = attempt(lambda: _store(path, mode, meta))
+            hist.append([f"store_metadata ({mode})", show(meta)])
+            ctx.count("rewrite_rounds[store_metadata]")
+            if c.exc is not None:
+                ctx.ev("rewrite_roundtrip")
+                ctx.violation("rewrite_roundtrip", {"history": hist[-4:], "exc": repr(c.exc)},
+                              message=f"store_metadata on an existing file raised {c.exc!r}")
+                break
+            expect = []
+            for sec, kv in meta.items():
+                for key, v in kv.items():
+                    st, typ, out, _v = writer_outcome(sec, key, v)
+                    if out.kind == "ok":
+                        current[(sec, key)] = (typ, expected_in_file(sec, key, typ, out.value,
+                                                                     N_EVENTS))
+                    elif out.kind == "dc":
+                        current.pop((sec, key), None)
+            expect = [(s_, k_, t_, v_) for (s_, k_), (t_, v_) in current.items()]
+            with h5py.File(path, "r") as h5:
+                cfg = fmt_hdf5.RTDC_HDF5.parse_config(h5)
+            compare_config(ctx, "rewrite_roundtrip", "store_metadata on a file that already "
+                           "holds the key", cfg, expect, extra={"history": hist[-4:]}, meta=meta)
+        if len(hist) >= 2:
+            ctx.mark_nontrivial(["rewrite", hist])
+        if idx % 41 == 0:
+            ctx.sample({"kind": "rewrite", "history": hist[:4]})
+    finally:
+        _State.route = "-"
+        if path.exists():
+            path.unlink()
+
+
+def _store(path, mode, meta):
+    from dclab import RTDCWriter
+    with RTDCWriter(path, mode=mode) as hw:
+        hw.store_metadata(meta)
+
+
 # ------------------------------------------------------------------------ entry point
 def run(spec, ctx):
     _State.ctx = ctx
@@ -1545,5 +1646,8 @@ def run(spec, ctx):
     elif kind == "registry":
         for idx in ctx.case_ids():
             run_registry(ctx, idx)
+    elif kind == "rewrite":
+        for idx in ctx.case_ids():
+            run_rewrite(ctx, idx)
     else:
         raise ValueError(kind)
